@@ -14,11 +14,24 @@ def natOfDigits? (s : List Char) : Option Nat :=
   else if s.all Char.isDigit then some (s.foldl (fun n c => n * 10 + (c.toNat - '0'.toNat)) 0)
   else none
 
-def splitOnChar (c : Char) (s : List Char) : List (List Char) :=
-  let rec go (cur : List Char) (acc : List (List Char)) : List Char → List (List Char)
-    | [] => (cur.reverse :: acc).reverse
-    | x :: xs => if x == c then go [] (cur.reverse :: acc) xs else go (x :: cur) acc xs
-  go [] [] s
+/-- `str.split(c)` for a one-character separator -/
+def splitOnChar (c : Char) : List Char → List (List Char)
+  | [] => [[]]
+  | x :: xs =>
+    if x == c then [] :: splitOnChar c xs
+    else
+      match splitOnChar c xs with
+      | [] => [[x]]
+      | p :: ps => (x :: p) :: ps
+
+/-- `str.split("||")` -/
+def splitOnBars : List Char → List (List Char)
+  | [] => [[]]
+  | '|' :: '|' :: rest => [] :: splitOnBars rest
+  | x :: xs =>
+    match splitOnBars xs with
+    | [] => [[x]]
+    | p :: ps => (x :: p) :: ps
 
 /-- split a leading run of digits off -/
 def spanDigits (s : List Char) : List Char × List Char := s.span Char.isDigit
@@ -98,11 +111,11 @@ def trimL (s : List Char) : List Char :=
 
 /-- `a,b||c` over canonical clause spellings -/
 def parseAltsText (s : String) : Option (List Alt) :=
-  let parts := s.splitOn "||"
-  let one (p : String) : Option Alt :=
-    if p == "<empty>" then some .empty
+  let parts := splitOnBars s.toList
+  let one (p : List Char) : Option Alt :=
+    if p == "<empty>".toList then some .empty
     else
-      let t := trimL p.toList
+      let t := trimL p
       if t.isEmpty then some (.clauses [])
       else
         let cs := (splitOnChar ',' t).map fun x => parseClauseL (trimL x)
